@@ -414,6 +414,70 @@ func checkC13(c caseC13) (Outcome, error) {
 		out.Label("query-not-expressible")
 		return out, nil
 	}
+	// the same query through `klog json` (filter and sort as the command applies them)
+	{
+		h := newInlineHarness(now, text, 1, "no_colour")
+		jargs, _ := buildFilterArgs(c.Query)
+		jres := h.RunJson(nil, false, false, jargs, c.Query.Sort)
+		if jres.Err != nil {
+			return out, fmt.Errorf("klog json with the query failed: %s\n%s", jres.Err.Error(), where())
+		}
+		v, jerr := model.ParseJSON(jres.Out)
+		if jerr != nil {
+			return out, fmt.Errorf("klog json output malformed: %v", jerr)
+		}
+		recsV, _ := v.(*model.JObject).Get("records")
+		arr, _ := recsV.([]any)
+		_, _, unsure, _ := refSelect(c.Doc, c.Query, c.Env.NowDay, true, true, true)
+		if !unsure {
+			type row struct {
+				date string
+				n    int
+			}
+			var wantRows []row
+			for ri := range c.Doc.Records {
+				if selAll[ri] {
+					wantRows = append(wantRows, row{c.Doc.Records[ri].Date.Lit(), len(entsAll[ri])})
+				}
+			}
+			var gotRows []row
+			for _, x := range arr {
+				o := x.(*model.JObject)
+				d, _ := jStr(o, "date")
+				es, _ := o.Get("entries")
+				ea, _ := es.([]any)
+				gotRows = append(gotRows, row{d, len(ea)})
+			}
+			if c.Query.Sort != "" {
+				key := func(r row) string { return fmt.Sprintf("%s#%d", strings.ReplaceAll(r.date, "/", "-"), r.n) }
+				sortRows := func(rs []row) {
+					for i := 1; i < len(rs); i++ {
+						for j := i; j > 0 && key(rs[j]) < key(rs[j-1]); j-- {
+							rs[j], rs[j-1] = rs[j-1], rs[j]
+						}
+					}
+				}
+				// monotone by date, then compare as multisets
+				for i := 1; i < len(gotRows); i++ {
+					a, b := strings.ReplaceAll(gotRows[i-1].date, "/", "-"), strings.ReplaceAll(gotRows[i].date, "/", "-")
+					if (c.Query.Sort == "asc" && a > b) || (c.Query.Sort == "desc" && a < b) {
+						return out, fmt.Errorf("klog json --sort %s: %s before %s\n%s", c.Query.Sort, a, b, where())
+					}
+				}
+				for i := range gotRows {
+					gotRows[i].date = strings.ReplaceAll(gotRows[i].date, "/", "-")
+				}
+				for i := range wantRows {
+					wantRows[i].date = strings.ReplaceAll(wantRows[i].date, "/", "-")
+				}
+				sortRows(gotRows)
+				sortRows(wantRows)
+			}
+			if fmt.Sprint(gotRows) != fmt.Sprint(wantRows) {
+				return out, fmt.Errorf("klog json with the query lists (date, #entries) %v, the reference selection is %v\n%s", gotRows, wantRows, where())
+			}
+		}
+	}
 	// single clauses and the conjunction law
 	dateOnly, tagOnly, typeOnly := args, args, args
 	dateOnly.Tags, dateOnly.EntryType = nil, ""
